@@ -397,7 +397,11 @@ func runC13(c *rt.Ctx) {
 					func() (size.Size, error) { return size.New(int64(m), u) },
 					func() (size.Size, error) { return size.DefaultParser(fmt.Sprint(m, u), 0) },
 					func() (size.Size, error) { return size.DefaultParser([]byte(fmt.Sprint(m, " ", u)), size.DefaultRule) },
-					func() (size.Size, error) { var z size.Size; err := z.UnmarshalText([]byte(fmt.Sprint(m, u))); return z, err },
+					func() (size.Size, error) {
+						var z size.Size
+						err := z.UnmarshalText([]byte(fmt.Sprint(m, u)))
+						return z, err
+					},
 					func() (size.Size, error) {
 						return size.DefaultParser(fmt.Sprintf(`{"value":%d,"unit":%q}`, m, u), size.RuleEnableJSONObjectForm)
 					},
